@@ -122,6 +122,18 @@ PROPS = {
                      "that Fq2::sqrt (Algorithm 9) returns a root exactly when one exists (A8'): only its constants and the zero case are proved"],
         assumptions=[A['A8'], "A8' correctness of Adj/Rodriguez-Henriquez Algorithm 9", A['D_FQ'], "(-y)^2 = y^2 in Fq2 stated as a ring fact (lemma_neg_sq2)", A['TOOLS']],
     ),
+    'C15': dict(
+        units_quick=['sswu', 'sswuhelp', 'order'], units_thorough=['sswu', 'sswuhelp', 'order', 'tower'], timeout=600,
+        claim="PARTIAL: osswu_help (real generic body instantiated at Fq and Fq2) computes u^2, xi u^2, xi^2 u^4, the projective x1 candidate "
+              "(-B/A)(1 + 1/(xi^2 u^4 + xi u^2)) as x0_num/x0_den with the exceptional denominator A*xi, and numerator / denominator of g(x1); "
+              "chain_pm3div4 = x^((q-3)/4) and chain_p2m9div16 = x^((q^2-9)/16) exactly (exponent tracking of the real chains); the G1 and G2 maps "
+              "return (X, Y, Z) with Z = x0_den, X/Z^2 = x1 together with y^2 = g(x1) (curve equation of E', cross-multiplied) or X/Z^2 = xi u^2 x1 "
+              "(G2: together with y^2 = g(x2)), Y = y Z^3, and sgn0(y) = sgn0(u) whenever y != 0.",
+        not_covered=["that x1 is chosen exactly when g(x1) is a square, and the curve equation of the second candidate in G1 (Euler's criterion, A8)",
+                     "that the G2 map's terminal panic is unreachable (A8; replaced by an assumed-unreachable stub)",
+                     "values of the constants XI, ELLP_A, ELLP_B, SQRT_M_XI_CUBED, ROOTS_OF_UNITY, ETAS (closed-term facts, not checked)"],
+        assumptions=[A['A8'], A['D_FQ'], "laws of fpow / f2pow (specs/fpow.vrs: ring theory)", A['TOOLS'], "rewrites R11 (slice patterns), R4 (slice loops), R9a (terminal panic)"],
+    ),
 }
 
 HOOK_COMMITS = []
